@@ -234,6 +234,8 @@ def features(case):
                 fs.add("import-" + st[2])
             if st[0] == "ho":
                 fs.add("higher-order")
+            if M.inline_args(st):
+                fs.add("call-inside-argument")
             if st[0] == "cls":
                 fs.add("class")
             if st[0] == "var":
@@ -258,7 +260,7 @@ def slim(case):
 
 
 def gen_opts():
-    return {"exclude": common.open_features(ID), "loads": False}
+    return {"exclude": common.open_features(ID), "loads": False, "nested_args": True}
 
 
 def shard(idx, n, tier, seed, count):
